@@ -23,11 +23,13 @@ def dispatch (line : String) : String :=
   | "C01" :: rest => C01.handle ("C01" :: rest)
   | "C03" :: rest => C03.handle ("C03" :: rest)
   | "C05" :: rest => C05.handle ("C05" :: rest)
-  | ["C06", _kind, vis, f1, f2, pks, t1, t2] =>
+  | "C06" :: _kind :: vis :: f1 :: f2 :: pks :: t1 :: t2 :: rest =>
     -- both runs by the model; the property (strict ⇒ lenient with equal summary; order-free verdict,
-    -- cost and aggregates) is what Props/C06 proves about the model
-    let a := C01.handle ["C01", vis, f1, "11000000000", "0", pks, t1]
-    let b := C01.handle ["C01", vis, f2, "11000000000", "0", pks, t2]
+    -- cost and aggregates) is what Props/C06 proves about the model.  Optional 9th word: the cost limit
+    -- of both runs (default: the block maximum)
+    let lim := match rest with | l :: _ => l | [] => "11000000000"
+    let a := C01.handle ["C01", vis, f1, lim, "0", pks, t1]
+    let b := C01.handle ["C01", vis, f2, lim, "0", pks, t2]
     s!"A={a} || B={b} || prop=ok"
   | "C07" :: rest => C07.handle ("C07" :: rest)
   | "C08" :: rest => C08.handle ("C08" :: rest)
